@@ -107,8 +107,9 @@ class Dep:
                     self.deps[x] |= srcs
                     self.events[x].append(("call", bi, t))
 
-    def slice(self, locals_):
-        """transitive closure of deps from the given locals -> set of locals"""
+    def slice(self, locals_, stop=None):
+        """transitive closure of deps from the given locals -> set of locals.
+        stop(local) -> True: the local is included but its own dependences are not followed."""
         seen = set()
         st = list(locals_)
         while st:
@@ -116,6 +117,8 @@ class Dep:
             if x in seen:
                 continue
             seen.add(x)
+            if stop is not None and stop(x):
+                continue
             st.extend(self.deps.get(x, ()))
             # reading a pointer reads its pointees
             st.extend(self.pointee.get(x, ()))
